@@ -100,7 +100,7 @@ CLAIMED = {
               'does not know by name. Exploration: sampled histories, not all.'),
         note=('Trusts numpy/scipy; single-threaded BLAS so that same-process repeats are bitwise equal (re-validated by selftest-determinism). '
               'Interleaving is at public-API-call granularity (lentil has no threads or locks; pre-emption inside a call would test a '
-              'thread-safety property nobody stated). cosmic_rays and smear(angle=None), which consume the global RNG by design, are exercised under C18.')),
+              'thread-safety property nobody stated). cosmic_rays, which consumes the global RNG by design, is exercised under C18; smear(angle=None), the other documented unseeded consumer, is always given its angle here (C19 is not applicable).')),
     'C13': dict(
         design='7.4',
         text=('Seeded deterministic simulation of 1-3 callers over a shared pool of 2-5 spectra (identical, nested, overlapping, disjoint '
